@@ -459,16 +459,10 @@ def check_fold_derive(ctx, R, steps=('on_new',)):
                 continue
             accp, batchp = params[1], params[2]
             con = ctx.construct(fn)
-            interp = Interp(M, fn, cls=cls)
-            paths = ctx.paths(fn, cls, param_tags=None)
             bad, n = None, 0
             detail = ''
-            for st, status in paths:
-                evs = st.events
-                if is_failure(evs, status) or status != 'return':
-                    continue
-                ret = [e for e in evs if e.kind == 'RETURN' and e.depth == 0][-1]
-                node = ret.x.get('node')
+            for r in _agg_paths(M, cls, fn):
+                node = r.ret
                 if not (isinstance(node, ast.Tuple) and len(node.elts) == 2):
                     raise AnalysisError('%s does not return (state, result)' % con)
                 n += 1
@@ -478,16 +472,14 @@ def check_fold_derive(ctx, R, steps=('on_new',)):
                     if isinstance(c, ast.Constant):
                         if (cls.name, step, i) in LATCH_OK:
                             continue
-                        bad, detail = evs, 'state component %d is the constant %s' % (i, src(c))
+                        bad, detail = r, 'state component %d is the constant %s' % (i, src(c))
                         continue
-                    t = interp.tags(st, c)
-                    if ('p:' + accp) not in t:
-                        conds = ' & '.join('%s=%s' % (x.a, x.b) for x in evs if x.kind == 'COND' and x.c is None)
-                        bad, detail = evs, 'state component %d (%s) does not derive from the incoming state on the path [%s]: a ' \
-                                           'constant or batch-only value is injected into the state' % (i, src(c), conds)
+                    if not any(isinstance(x, ast.Name) and x.id == accp for x in ast.walk(c)):
+                        conds = ' & '.join('%s=%s' % (c_, o) for c_, o in r.conds)
+                        bad, detail = r, 'state component %d (%s) does not derive from the incoming state on the path [%s]: a ' \
+                                         'constant or batch-only value is injected into the state' % (i, src(c)[:80], conds[:200])
             if n:
-                R.ob('FOLD-DERIVE', con, 'state', bad is None, detail, ctx.where(fn, fn.node.lineno),
-                     fmt_path(bad) if bad else None, n)
+                R.ob('FOLD-DERIVE', con, 'state', bad is None, detail, ctx.where(fn, fn.node.lineno), None, n)
     # the accumulators thread the state through
     for name in ('accumulator', 'groupby_accumulator', 'window_accumulator', 'windowed_groupby_accumulator'):
         fn = M.function(AGG, name)
@@ -552,33 +544,74 @@ def _decompose(expr):
     return None
 
 
-def _step_forms(fn):
-    """(state component texts, result text) of the main path of a fold step, with acc -> A and batch -> B"""
+def _norm_cond(c, o):
+    """(test text without spaces, outcome) with a leading `not` folded into the outcome"""
+    t = c.replace(' ', '')
+    while t.startswith('not') and not t[3:4].isalnum() or t.startswith('not(') or (t.startswith('not') and t[3:4].isalpha() and ' ' in c[:4]):
+        inner = t[3:]
+        if inner.startswith('(') and inner.endswith(')'):
+            inner = inner[1:-1]
+        t, o = inner, not o
+        if not c.lstrip().startswith('not'):
+            break
+        c = c.lstrip()[3:].lstrip()
+    return t, o
+
+
+def _agg_paths(model, cls, fn, **kw):
+    from ..symexpr import SymEval
+    return [r for r in SymEval(model, cls, **kw).run(fn) if not r.raised and r.ret is not None]
+
+
+def _step_forms(fn, model=None, cls=None):
+    """(state component texts, result text) of the main path of a fold step, with acc -> A and batch -> B.
+    On symbolic normal forms: helper methods / private module functions are spliced, temporaries substituted,
+    early returns and inverted tests are transparent."""
     params = fn.params()
     accp, batchp = params[1], params[2]
-    paths = [p for p in sym_paths(fn.node) if not p.raised and p.ret is not None]
+    paths = _agg_paths(model, cls, fn)
     main = []
     for p in paths:
         ok = True
         for c, o in p.conds:
-            if c.replace(' ', '') == 'len(%s)' % batchp and not o:
+            t, o2 = _norm_cond(c, o)
+            if t in ('len(%s)' % batchp, 'len(%s)>0' % batchp, 'len(%s)!=0' % batchp) and not o2:
                 ok = False          # the "batch is empty" arm is not the accumulate path
-            if 'isinstance(' in c and o:
+            if t in ('len(%s)==0' % batchp,) and o2:
+                ok = False
+            if 'isinstance(' in t and o2 and 'Number' in t:
                 ok = False          # scalar divide-by-zero guards
         if ok:
             main.append(p)
-    if len(main) != 1:
-        raise AnalysisError('%s: cannot single out the accumulate path (%d candidates): unrecognised spelling' % (fn.qual, len(main)))
-    ret = main[0].ret
-    if not (isinstance(ret, ast.Tuple) and len(ret.elts) == 2):
-        raise AnalysisError('%s does not return (state, result)' % fn.qual)
+    # configuration tests met on the way (self.ddof != 0 inside a spliced helper) index the variants of the step
     rn = _Rename({accp: 'A', batchp: 'B'})
-    state = rn.visit(copy.deepcopy(ret.elts[0]))
-    result = rn.visit(copy.deepcopy(ret.elts[1]))
-    comps = state.elts if isinstance(state, ast.Tuple) else [state]
-    # in-place effects recorded on the path (result.index.name = ...)
-    eff = sorted(text(rn.visit(copy.deepcopy(c))) for c in main[0].calls if isinstance(c, ast.Assign))
-    return comps, result, eff
+    variants = {}
+    for mp in main:
+        key = []
+        for c, o in mp.conds:
+            t, o2 = _norm_cond(c, o)
+            if t.startswith('len(%s)' % batchp) or c.startswith('<'):
+                continue
+            if any(isinstance(x, ast.Name) and x.id in (accp, batchp) for x in ast.walk(ast.parse(c, mode='eval'))):
+                continue            # a test on the data (guards), not on the configuration
+            key.append((text(rn.visit(ast.parse(c, mode='eval').body)) if not c.startswith('<') else c, o))
+        key = tuple(sorted(set(key)))
+        ret = mp.ret
+        if not (isinstance(ret, ast.Tuple) and len(ret.elts) == 2):
+            raise AnalysisError('%s does not return (state, result)' % fn.qual)
+        state = rn.visit(copy.deepcopy(ret.elts[0]))
+        result = rn.visit(copy.deepcopy(ret.elts[1]))
+        comps = state.elts if isinstance(state, ast.Tuple) else [state]
+        # in-place effects recorded on the path (result.index.name = ...)
+        eff = sorted(text(rn.visit(copy.deepcopy(c))) for c, s_, l in mp.calls if isinstance(c, ast.Assign))
+        form = (tuple(text(c) for c in comps), text(result), tuple(eff))
+        if key in variants and variants[key][3] != form:
+            raise AnalysisError('%s: cannot single out the accumulate path (two forms under the same tests %s): unrecognised spelling'
+                                % (fn.qual, key))
+        variants[key] = (comps, result, eff, form)
+    if not variants:
+        raise AnalysisError('%s: no accumulate path found: unrecognised spelling' % fn.qual)
+    return variants
 
 
 def check_mirror(ctx, R):
@@ -591,28 +624,35 @@ def check_mirror(ctx, R):
         if new is None or old is None:
             continue
         con = ctx.construct(old)
-        cn, rn, en = _step_forms(new)
-        co, ro, eo = _step_forms(old)
-        tn = [text(c) for c in cn]
-        dn = [_decompose(c) for c in cn]
-        do = [_decompose(c) for c in co]
-        ok = len(dn) == len(do) and all(
-            a is not None and b is not None and a[0] == '+' and b[0] == '-' and a[1:] == b[1:] for a, b in zip(dn, do))
-        detail = ''
-        if not ok:
-            detail = 'decay is not the inverse of accrual: on_new state %s vs on_old state %s' % (tn, [text(c) for c in co])
-        else:
+        vn, vo = _step_forms(new, M, cls), _step_forms(old, M, cls)
+        ok, detail = True, ''
+        if set(vn) != set(vo):
+            ok, detail = False, 'accrual and decay are decided under different tests: %s vs %s' % (sorted(vn), sorted(vo))
+        for key in (sorted(vn) if ok else []):
+            cn, rn, en, _ = vn[key]
+            co, ro, eo, _ = vo[key]
+            tn = [text(c) for c in cn]
+            dn = [_decompose(c) for c in cn]
+            do = [_decompose(c) for c in co]
+            inv = len(dn) == len(do) and all(
+                a is not None and b is not None and a[0] == '+' and b[0] == '-' and a[1:] == b[1:] for a, b in zip(dn, do))
+            if not inv:
+                ok, detail = False, 'decay is not the inverse of accrual: on_new state %s vs on_old state %s' % (tn, [text(c) for c in co])
+                break
             # result expressions agree once the state components are abstracted
+
             def abstract(res, comps):
-                s = text(res)
+                s_ = text(res)
                 for i, c in sorted(enumerate(comps), key=lambda ic: -len(text(ic[1]))):
-                    s = s.replace(text(c), 'S%d' % i)
-                return s
+                    s_ = s_.replace(text(c), 'S%d' % i)
+                return s_
             an, ao = abstract(rn, cn), abstract(ro, co)
             if an != ao:
                 ok, detail = False, 'the result expressions differ: on_new %s vs on_old %s' % (an, ao)
-            elif len(en) != len(eo):
+                break
+            if len(en) != len(eo):
                 ok, detail = False, 'side conditions differ (%s vs %s)' % (en, eo)
+                break
         R.ob('MIRROR', con, 'inverse', ok, detail, ctx.where(old, old.node.lineno))
 
 
@@ -842,21 +882,47 @@ def check_agg_table(ctx, R):
         R.ob('AGG-TABLE', ctx.construct(fn), 'std', ok, 'std is not var(ddof=ddof) ** 0.5', ctx.where(fn, fn.node.lineno))
 
 
+def _reachable_asts(model, cls, fn, depth=0, seen=None):
+    """the function's own AST plus the ASTs of helper methods of the class and private module-level functions it refers to
+    (called or passed as a value), transitively: the code that runs as part of the step"""
+    seen = seen if seen is not None else set()
+    if fn.fq in seen or depth > 4:
+        return []
+    seen.add(fn.fq)
+    out = [fn.node]
+    for n in own_nodes(fn.node):
+        callee = None
+        if isinstance(n, ast.Attribute) and isinstance(n.value, ast.Name) and n.value.id == 'self' and cls is not None:
+            callee = cls.find(n.attr)
+        elif isinstance(n, ast.Name) and isinstance(n.ctx, ast.Load) and n.id.startswith('_') and not n.id.startswith('__'):
+            from ..model import Func
+            t = model.resolve_name(fn.module, n)
+            if isinstance(t, Func) and t.owner is None and t.parent is None:
+                callee = t
+        if callee is not None and callee.module.name == AGG:
+            out.extend(_reachable_asts(model, cls, callee, depth + 1, seen))
+    return out
+
+
 def check_reducer_name(ctx, R):
+    """which pandas reducers a step applies is read off the code that runs as part of the step (helpers included); the
+    quotient / variance shapes are read off the symbolic normal form of what the step returns"""
+    from ..symexpr import nf
     M = ctx.model
     for cls in agg_classes(M):
         if cls.name not in REDUCERS:
             continue
         must, mustnot = REDUCERS[cls.name]
         for step in ('on_new', 'on_old', 'initial'):
-            fn = cls.methods.get(step)
-            if fn is None:
+            fn = cls.find(step)
+            if fn is None or fn.cls is None or fn.cls.name in ('Aggregation',):
                 continue
             used = set()
-            for n in own_nodes(fn.node):
-                if isinstance(n, ast.Attribute) and n.attr in ('sum', 'count', 'size', 'value_counts') and not (
-                        isinstance(n.value, ast.Name) and n.value.id == 'self'):
-                    used.add(n.attr)
+            for tree in _reachable_asts(M, cls, fn):
+                for n in ast.walk(tree):
+                    if isinstance(n, ast.Attribute) and n.attr in ('sum', 'count', 'size', 'value_counts') and not (
+                            isinstance(n.value, ast.Name) and n.value.id == 'self'):
+                        used.add(n.attr)
             okm = must <= used if step != 'initial' or cls.name not in ('Size',) else True
             if step == 'initial' and cls.name in ('Size', 'Var'):
                 okm = True
@@ -866,21 +932,35 @@ def check_reducer_name(ctx, R):
                  ctx.where(fn, fn.node.lineno))
         if cls.name in ('Var', 'GroupbyVar'):
             for step in ('on_new', 'on_old'):
-                fn = cls.methods[step]
-                sq = any(isinstance(n, ast.BinOp) and isinstance(n.op, ast.Pow) and src(n.right) == '2' for n in ast.walk(fn.node))
+                fn = cls.find(step)
+                sq = any(isinstance(n, ast.BinOp) and isinstance(n.op, ast.Pow) and src(n.right) == '2'
+                         for tree in _reachable_asts(M, cls, fn) for n in ast.walk(tree)
+                         if tree is fn.node or not getattr(tree, 'name', '').startswith('_compute'))
                 R.ob('REDUCER-NAME', ctx.construct(fn), 'sum-of-squares', sq, 'the variance step does not accumulate a sum of squares',
                      ctx.where(fn, fn.node.lineno))
-            cr = cls.methods['_compute_result']
+            cr = cls.find('_compute_result')
+            if cr is None:
+                raise AnalysisError('anchor vanished: %s._compute_result' % cls.name)
             t = src(cr.node).replace(' ', '')
-            R.ob('REDUCER-NAME', ctx.construct(cr), 'formula', 'x2/n-(x/n)**2' in t and 'n/(n-self.ddof)' in t,
+            R.ob('REDUCER-NAME', ctx.construct(cr), 'formula-' + cls.name, 'x2/n-(x/n)**2' in t and 'n/(n-self.ddof)' in t,
                  'the variance formula is not x2/n - (x/n)**2 scaled by n/(n-ddof)', ctx.where(cr, cr.node.lineno))
         if cls.name in ('Mean', 'GroupbyMean'):
             for step in ('on_new', 'on_old'):
-                fn = cls.methods[step]
-                rets = [r for r in own_nodes(fn.node) if isinstance(r, ast.Return)]
-                ok = bool(rets) and isinstance(rets[0].value, ast.Tuple) and isinstance(rets[0].value.elts[1], ast.BinOp) \
-                    and isinstance(rets[0].value.elts[1].op, ast.Div) and src(rets[0].value.elts[1].left) == 'totals'
-                R.ob('REDUCER-NAME', ctx.construct(fn), 'quotient', ok, 'the mean is not totals divided by the count', ctx.where(fn, fn.node.lineno))
+                fn = cls.find(step)
+                ok, n = True, 0
+                for r in _agg_paths(M, cls, fn):
+                    ret = r.ret
+                    if not (isinstance(ret, ast.Tuple) and len(ret.elts) == 2):
+                        raise AnalysisError('%s does not return (state, result)' % ctx.construct(fn))
+                    st_, res = ret.elts
+                    comps = st_.elts if isinstance(st_, ast.Tuple) else [st_]
+                    n += 1
+                    # result = totals / counts  (counts possibly replaced by 1 on the scalar-zero guard path)
+                    if not (isinstance(res, ast.BinOp) and isinstance(res.op, ast.Div) and len(comps) == 2
+                            and nf(res.left) == nf(comps[0]) and nf(res.right) in (nf(comps[1]), '1')):
+                        ok = False
+                R.ob('REDUCER-NAME', ctx.construct(fn), 'quotient', ok and n > 0, 'the mean is not totals divided by the count',
+                     ctx.where(fn, fn.node.lineno), None, n)
 
 
 def check_window_fifo(ctx, R):
